@@ -108,6 +108,33 @@ def prove(run):
                     # (the float MPO tensors are Hermitian only up to rounding, so the exact imaginary part may be a ~1e-18 polynomial)
                     decide(run, f"post:Mps.expectation:sesquilinear_form@{tag}", "Mps.expectation", e, full if full.imag else full.real, case,
                            native_pair(lambda: (atc.expectation(H), np.vdot(S.dense(atc), Hn @ S.dense(atc))), how))
+                # density operators: rho H (MpDm.apply: the right factor must not touch the bond labels) and H rho, then a gauge move in kernel-stub mode
+                if ga == gauges[0][0]:
+                    from renormalizer.mps import MpDm
+                    rt = H.apply(MpDm.from_mps(at))
+                    if np.abs(S.dense(rt)).max() > 1e-12:
+                        rho = SH.symbolic_state(rt, vf)
+                        rtc = S.complexify(rt, rng)
+                        with SH.kernel_stub_mode():
+                            Rd, Hd2 = S.dense(rho), S.dense(Hs)
+                            for side, fnm, mk, ref, natf in (("rho_H", "MpDm.apply", lambda: rho.apply(Hs), Rd.dot(Hd2), lambda: (rtc.apply(H), S.dense(rtc) @ Hn)),
+                                                            ("H_rho", "Mpo.apply", lambda: Hs.apply(rho), Hd2.dot(Rd), lambda: (H.apply(rtc), Hn @ S.dense(rtc)))):
+                                try:
+                                    r = mk()
+                                except Exception as e:
+                                    decide_true(run, f"post:{fnm}:density_operator_total[{side}]@{tag}", fnm, False, f"raised {type(e).__name__}: {e}", case)
+                                    continue
+                                decide(run, f"post:{fnm}:density_operator_product[{side}]@{tag}", fnm, S.dense(r), ref, case,
+                                       native_pair((lambda nf: lambda: (lambda rr, rf: (S.dense(rr), rf))(*nf()))(natf), how))
+                                decide_true(run, f"post:{fnm}:density_operator_product_qn_valid[{side}]@{tag}", fnm, not S.qnv_violations(r), f"{S.qnv_violations(r)[:1]}", case,
+                                            numeric_replay=native_cond((lambda nf: lambda: (lambda v_: (not v_, v_[:1]))(S.qnv_violations(nf()[0])))(natf), how))
+                                try:
+                                    c = r.copy().ensure_right_canonical()
+                                    decide(run, f"post:{fnm}:density_operator_product_unchanged_by_gauge_move[{side}]@{tag}", fnm, S.dense(c), ref, case,
+                                           native_pair((lambda nf: lambda: (lambda rr, rf: (S.dense(rr.ensure_right_canonical()), rf))(*nf()))(natf), how))
+                                except Exception as e:
+                                    decide_true(run, f"post:{fnm}:density_operator_total[{side}:gauge]@{tag}", fnm, False, f"gauge move raised {type(e).__name__}: {e}", case)
+                with SH.symbolic_mode():
                     if eo:
                         op, ch = eo[0]
                         O = Mpo(model, op)
